@@ -779,14 +779,24 @@ func (r *Resolver) ResolveBlock(w *WBlock) (Block, error) {
 // the symbol rules of the schema. Returned problems is a list of schema-rule
 // violations (non-empty means the bytes do not follow the published rules).
 func DecodeToken(b []byte) (tok *Token, env *WBiscuit, problems []string, err error) {
+	return DecodeTokenBase(b, nil)
+}
+
+// DecodeTokenBase is DecodeToken for parties that agreed on extra base symbols
+// (a caller-supplied table that both issuer and reader start from): they occupy
+// the indexes from 1024 on, before the first block's own table.
+func DecodeTokenBase(b []byte, base []string) (tok *Token, env *WBiscuit, problems []string, err error) {
 	env, err = DecodeBiscuit(b)
 	if err != nil {
 		return nil, nil, nil, err
 	}
 	tok = &Token{RootID: env.RootKeyID, Sealed: env.FinalSignature != nil}
-	res := &Resolver{}
+	res := &Resolver{Table: append([]string{}, base...)}
 	seen := map[string]bool{}
 	for _, s := range DefaultSymbols {
+		seen[s] = true
+	}
+	for _, s := range base {
 		seen[s] = true
 	}
 	for i, sb := range env.All() {
